@@ -1,4 +1,5 @@
-import LunaVerif.Model.Ulpi.Drive
-/-- Line-protocol driver of the ULPI models (sub-model selected by the first header field;
-see `LunaVerif/Model/Ulpi/Drive.lean` for the row formats). -/
-def main : IO Unit := LunaVerif.Ulpi.drvMain
+import LunaVerif.Model.Ulpi.DriveC24
+/-- Line-protocol driver of the ULPI models (sub-model selected by the first header field; see
+`LunaVerif/Model/Ulpi/Drive.lean` for the row formats) with the C24 environment-hypothesis columns
+of `LunaVerif/Model/Ulpi/DriveC24.lean`. -/
+def main : IO Unit := LunaVerif.Ulpi.drv24Main
